@@ -105,6 +105,9 @@ class Linearizer:
                 "std::convert::AsRef::as_ref", "std::borrow::ToOwned::to_owned", "std::convert::Into::into",
                 "std::convert::From::from", "std::borrow::Borrow::borrow", "std::array::as_slice")):
             x = x[2] if x[0] == "via" else x[1]
+        w = self._window_len(x)
+        if w is not None:
+            return Lin(w)
         if x[0] in ("param", "local"):
             ty = self.body.ty(x[1])
             n = array_len(self.body, ty)
@@ -154,6 +157,27 @@ class Linearizer:
             return Lin(len(x[2]))
         if x[0] == "repeat" and isinstance(x[2], int):
             return Lin(x[2])
+        return None
+
+    def _window_len(self, x):
+        """n for the element yielded by `slice.windows(n)` / `chunks_exact(n)`: `for w in v.windows(2) { w[0]; w[1] }`"""
+        if not (x[0] == "field" and x[3] == "0" and x[1][0] == "downcast" and x[1][2] == "Some"):
+            return None
+        y = x[1][1]
+        hops = 0
+        while hops < 12:
+            hops += 1
+            if y[0] in ("ref", "deref", "cast"):
+                y = y[1]
+            elif y[0] == "via":
+                y = y[2]
+            elif y[0] == "call" and y[1] == "std::iter::Iterator::next" and y[2]:
+                y = y[2][0]
+            elif y[0] == "call" and y[1].rsplit("::", 1)[-1] in ("windows", "chunks_exact") and len(y[2]) == 2:
+                n = y[2][1]
+                return n[1] if n[0] == "const" and isinstance(n[1], int) else None
+            else:
+                return None
         return None
 
     def field_array_len(self, x):
